@@ -87,7 +87,7 @@ def handle (s : State) (line : String) : State × String :=
         | "steal", some l =>
           -- pre-empted before it takes the queue lock (its first synchronisation point): the steal comes first;
           -- anywhere later its `get` has already happened (the receiver cannot enter while the main thread holds the lock)
-          let s' := if k = "1" then settle (steal s1 l) else settle (steal s2 l)
+          let s' := if k = "1" || k = "1e" then settle (steal s1 l) else settle (steal s2 l)
           (s', obs s')
         | "shutdown", _ => let s' := settle (putShutdown s2); (s', obs s')
         | _, _ => (s, "bad-op")
